@@ -874,3 +874,12 @@ VARIANTS['C18'] += [
     V('neutral: missing moov logged at warning level',
       [(f'{VALF}/init_segment.py', "            self.log.error(msg)\n            return None\n        self.validate_moov(moov)", "            self.log.warning(msg)\n            return None\n        self.validate_moov(moov)")], None),
 ]
+
+VARIANTS['C17'] += [
+    V('stream replaced without flushing the deletion (fix 4847401 reverted)',
+      [('dashlive/server/requesthandler/streams.py', "            models.db.session.delete(st)\n            # the old row has to be gone before a stream with the same\n            # directory is inserted\n            models.db.session.flush()\n",
+        "            models.db.session.delete(st)\n")], 'R17.6', 'add_stream'),
+    V('neutral: old stream deleted with its own commit',
+      [('dashlive/server/requesthandler/streams.py', "            models.db.session.delete(st)\n            # the old row has to be gone before a stream with the same\n            # directory is inserted\n            models.db.session.flush()\n",
+        "            st.delete(commit=True)\n")], None),
+]
